@@ -11,6 +11,7 @@ DIMS_POOL = [
     {'l': 0, 'q': [], 's': [2]}, {'l': 1, 'q': [], 's': [1]}, {'l': 2, 'q': [], 's': [0, 2]},
     {'l': 1, 'q': [3], 's': [2, 1]}, {'l': 0, 'q': [], 's': [3]}, {'l': 2, 'q': [1, 2], 's': [1]},
     {'l': 1, 'q': [], 's': [0]}, {'l': 3, 'q': [2], 's': [2]},
+    {'l': 1, 'q': [], 's': [2, 2]}, {'l': 0, 'q': [], 's': [2, 1]}, {'l': 0, 'q': [], 's': [1, 2]}, {'l': 1, 'q': [], 's': [2, 1, 2]},
 ]
 JUNK = 7   # value planted in unreferenced (strictly upper) cells of 's' blocks
 
